@@ -357,6 +357,7 @@ def ekf(spec, ts, m0, P0, nodes=None, perturb=0.0):
     out["Phi"].append(None), out["scale"].append(unit)
     if perturb and len(ts) > 1:
         m, P = _perturb(N, m, P, 0, perturb, ts[1] - ts[0], n, d)
+    last_step_m = m  # (perturbed) state at the last accepted step end: the dynamic local scale is computed from it
 
     # which step interval contains each checkpoint node -> scale lookup happens lazily
     i = 1
@@ -372,6 +373,10 @@ def ekf(spec, ts, m0, P0, nodes=None, perturb=0.0):
             h = ts[j] - _last_step_time(ts, nodes, i)
             # local scale is computed from the state at the last *accepted* step end
             m_from, t_from_step = _state_at_last_step(out, ts, nodes, i)
+            if perturb:
+                # rounding model: the residual that defines the local scale is a difference of nearly equal numbers when the step is
+                # small; its attainable accuracy is only visible if the state it is computed from carries the modelled rounding
+                m_from = last_step_m
             Phi, Q_unit = transition(spec, ts[j] - t_from_step, unit)
             mu = Phi @ m_from
             H, b = spec.linearise(mu, ts[j])
@@ -395,6 +400,8 @@ def ekf(spec, ts, m0, P0, nodes=None, perturb=0.0):
             out["m"].append(m), out["P"].append(P), out["mp"].append(mp), out["Pp"].append(Pp)
             if perturb and kk + 1 < len(ts):
                 m, P = _perturb(N, m, P, kk, perturb, ts[kk + 1] - ts[kk], n, d)
+            if nodes[kk] == "step":
+                last_step_m = m
             out["Phi"].append(Phi), out["scale"].append(sigma)
         i = (j if has_step else len(ts) - 1) + 1
 
